@@ -8,7 +8,7 @@ def trigger(scr):
 def run(ctx):
     if not hc.ensure_builds(ctx): hc.finish(ctx, 'builds failed')
     n = 500 if ctx.quick() else 12000
-    H, impl, model, dis, hits = hc.run_profile(ctx, profiles.with_rotation(profiles.C04), n, trigger=trigger,
+    H, impl, model, dis, hits = hc.run_profile(ctx, profiles.with_rotation(profiles.C04, 0.12, disable=None), n, trigger=trigger,
         claims=lambda op, a, b: op in ('DE', 'RF', 'RK', 'KG', 'EN'))
     if not ctx.quick() and not hits:
         import hist; x = hist.x
